@@ -1,4 +1,18 @@
-\* WsImpl, repaired model (FixDup, FixDel, FixInit), graphql-ws, quick tier.
+\* WsImpl, exhaustive.  This file is a TEMPLATE: harness/cmd/c11 (mcVariants) overrides the constants
+\* per variant (one "Name = value" / "Name <- def" line each, definitions in MC_WsImpl.tla).
+\* As written: the REPAIRED model (FixDup, FixDel, FixInit), on which every property holds:
+\*   invariants  TypeOK, Refines (every observable step satisfies its Ws guard: NoExecBeforeAck, the
+\*               per-instance frame grammar, one executing operation per id, cancel only with a cause,
+\*               CloseFunc at most once), WriteExclusion, CloseOnceI (exactly once when all has ended),
+\*               NothingLeft, StopCancelsI
+\*   liveness    EndsAll (after close / cancel / reader exit every process of the connection ends),
+\*               StopCancels - run with `-lncheck final`
+\* VIEW view keeps `act` and `hist` out of the fingerprint; the Ws state `w` (per-instance automata,
+\* no frame history) is part of it.
+\*
+\* Variants and measured sizes (distinct states / generated, TLC 4 workers; "+L" = with liveness):
+\*   see notes/C11.md, table "Model checking"; e.g. ops-gws (PreAcked, one id started twice, 3 client
+\*   messages after the handshake, K = 1, all Source endings): 62,252 / 117,238.
 SPECIFICATION Spec
 CONSTANTS
   AllowDupStart = FALSE
@@ -8,26 +22,28 @@ CONSTANTS
   SIds = {}
   SK = 0
   MCProto = "gws"
-  MCInitFn = TRUE
+  MCInitFn = FALSE
   MCInitTimeout = FALSE
-  MCKA = TRUE
+  MCKA = FALSE
   MCPO = FALSE
   MCPP = FALSE
   MCMissingPongOk = FALSE
-  MCCancel = TRUE
+  MCCancel = FALSE
+  MCDetached = FALSE
   AllInsts <- MCInsts1
   Ids <- MCIds1
   IdOfInst <- MCIdOf1
   InstOrder <- MCOrder1
-  Alphabet <- AlphaGws
+  Alphabet <- AlphaOps
   BadStarts = FALSE
-  SrcKinds <- KindsEnd
-  MaxMsgs = 4
+  SrcKinds <- KindsAll
+  MaxMsgs = 3
   K = 1
-  MaxTicks = 1
+  MaxTicks = 0
   FixDup = TRUE
   FixDel = TRUE
   FixInit = TRUE
+  PreAcked = TRUE
   Sync = FALSE
 VIEW view
 INVARIANTS TypeOK Refines WriteExclusion CloseOnceI NothingLeft StopCancelsI
